@@ -159,26 +159,41 @@ def check_label_template(ctx, r, cg):
         ctx.ok("C16.3", setter.qualname, "the per-leaf template contains the leaf index")
     ctx.counters["label_templates"] = n_tpl
     ctx.floor("C16.3", "label_templates", 1)
-    # call sites: (enumerate counter of the leaves loop, cls.structure)
+    # call sites: (enumerate counter of the leaves loop, cls.structure) -- followed through helper
+    # functions and class-based context managers to the expressions the values come from
+    from ..callgraph import trace_value
+
     n_calls = 0
     for caller, call in cg.callers(setter):
+        if not isinstance(call, ast.Call) or len(call.args) < 2:
+            continue
         n_calls += 1
         ctx.saw(caller)
-        a0 = call.args[0] if call.args else None
-        a1 = call.args[1] if len(call.args) > 1 else None
-        ok0 = False
-        if isinstance(a0, ast.Name):
-            for st in ast.walk(caller.node):
-                if isinstance(st, ast.For) and isinstance(st.target, ast.Tuple) and isinstance(st.iter, ast.Call) \
-                        and isinstance(st.iter.func, ast.Name) and st.iter.func.id == "enumerate" and not st.iter.args[1:] and not st.iter.keywords:
-                    if isinstance(st.target.elts[0], ast.Name) and st.target.elts[0].id == a0.id and any(x is call for x in ast.walk(st)):
-                        ok0 = True
-        if not ok0:
-            ctx.bad("C16.3", caller, call, "the '?' label is not set from the enumerate counter of the leaves loop: leaf positions are not told apart")
-        elif not (isinstance(a1, ast.Attribute) and a1.attr == "structure"):
-            ctx.bad("C16.3", caller, call, "the '?' label is not set with the annotation's structure name")
-        else:
-            ctx.ok("C16.3", caller.qualname, f"label set with ({norm(a0)}, {norm(a1)}): leaf position and structure name")
+        src0 = trace_value(cg, caller, call.args[0])
+        src1 = trace_value(cg, caller, call.args[1])
+        ok0 = bool(src0)
+        for fn_, e in src0:
+            good = False
+            if isinstance(e, ast.Name):
+                for st in ast.walk(fn_.node):
+                    if isinstance(st, ast.For) and isinstance(st.target, ast.Tuple) and isinstance(st.iter, ast.Call) \
+                            and isinstance(st.iter.func, ast.Name) and st.iter.func.id == "enumerate" and not st.iter.args[1:] and not st.iter.keywords:
+                        if isinstance(st.target.elts[0], ast.Name) and st.target.elts[0].id == e.id:
+                            good = True
+            if not good:
+                if isinstance(e, ast.Name) and e.id in fn_.params:
+                    raise AnalysisError(f"C16.3: the leaf position handed to {setter.name} could not be traced beyond parameter `{e.id}` of {fn_.qualname}")
+                ok0 = False
+                ctx.bad("C16.3", fn_, e if isinstance(e, ast.AST) and hasattr(e, "lineno") else call, f"the '?' label is set from `{norm(e)}`, which is not the enumerate counter of a leaves loop: "
+                        "leaf positions are not told apart")
+        ok1 = all(isinstance(e, ast.Attribute) and e.attr == "structure" for _, e in src1)
+        if ok0 and not ok1:
+            bad1 = [norm(e) for _, e in src1 if not (isinstance(e, ast.Attribute) and e.attr == "structure")]
+            if any(isinstance(e, ast.Name) and e.id in fn_.params for fn_, e in src1):
+                raise AnalysisError(f"C16.3: the structure name handed to {setter.name} could not be traced to its source")
+            ctx.bad("C16.3", caller, call, f"the '?' label is not set with the annotation's structure name but with {bad1}")
+        elif ok0:
+            ctx.ok("C16.3", caller.qualname, f"label set with ({', '.join(norm(e) for _, e in src0)}, {', '.join(norm(e) for _, e in src1)}): leaf position and structure name")
     ctx.counters["label_set_sites"] = n_calls
     ctx.floor("C16.3", "label_set_sites", 1)
 
@@ -218,8 +233,30 @@ def check_errors(ctx, r):
             # the raise must be control dependent on a test of the stored value and (setter)
             # every store must be dominated by the passing side of that test
             dom = g.dominators()
-            tests = [n for n in g.live_nodes() if n.kind == "test" and any(
-                isinstance(x, (ast.Attribute,)) and r.tl_of_expr(f, x) is not None for x in ast.walk(n.ast))]
+            getq = {x.qualname for x in fl.getters}
+            saved_names = set()
+            for a in walk_scope(f.node):
+                if isinstance(a, ast.Assign) and len(a.targets) == 1 and isinstance(a.targets[0], ast.Name):
+                    v = a.value
+                    if (isinstance(v, ast.Call) and m.resolve_call(f, v).kind == "func" and m.resolve_call(f, v).target.qualname in getq) or (
+                            isinstance(v, ast.Attribute) and r.tl_of_expr(f, v) is not None) or (
+                            isinstance(v, ast.Call) and norm(v.func) == "getattr" and v.args and isinstance(v.args[0], ast.Name) and r.tl_of_expr(f, ast.Attribute(value=v.args[0], attr="x", ctx=ast.Load())) is not None):
+                        saved_names.add(a.targets[0].id)
+
+            def mentions_label(e):
+                for x in ast.walk(e):
+                    if isinstance(x, ast.Attribute) and r.tl_of_expr(f, x) is not None:
+                        return True
+                    if isinstance(x, ast.Call) and m.resolve_call(f, x).kind == "func" and m.resolve_call(f, x).target.qualname in getq:
+                        return True
+                    if isinstance(x, ast.Call) and norm(x.func) in ("getattr", "hasattr") and x.args and isinstance(x.args[0], ast.Name) \
+                            and r.tl_of_expr(f, ast.Attribute(value=x.args[0], attr="x", ctx=ast.Load())) is not None:
+                        return True
+                    if isinstance(x, ast.Name) and x.id in saved_names:
+                        return True
+                return False
+
+            tests = [n for n in g.live_nodes() if n.kind == "test" and mentions_label(n.ast)]
             if not tests:
                 ctx.bad("C16.4", f, f.node, "the error is no longer conditional on the stored label", construct="no test of the label value")
                 continue
@@ -262,10 +299,11 @@ def _check_polarity(ctx, f, tnode, getter: bool):
         if isinstance(e, ast.Call) and isinstance(e.func, ast.Name) and e.func.id == "hasattr":
             return has
         if isinstance(e, ast.Compare) and len(e.ops) == 1 and isinstance(e.comparators[0], ast.Constant) and e.comparators[0].value is None:
+            # `<label> is None`: with a getattr(.., None)-style read a missing attribute reads as None too
             if isinstance(e.ops[0], ast.Is):
-                return isnone
+                return isnone or not has
             if isinstance(e.ops[0], ast.IsNot):
-                return not isnone
+                return not (isnone or not has)
         raise AnalysisError(f"C16.4: unrecognised atom in label test `{norm(test)}`")
 
     # which successor raises?
@@ -308,26 +346,23 @@ def _check_polarity(ctx, f, tnode, getter: bool):
 # ------------------------------------------------------------------------ C16.6
 def check_every_leaf_visited(ctx, r, cg):
     m = ctx.model
-    stack_tl, _, _ = c05.locate_stack(r)
-    flags = discover_flags(m, r, stack_tl)
-    labels = [fl for fl in flags if fl.guarded_setters or fl.raising_getters]
-    need(labels, "label flag not found")
-    fl = labels[0]
-    fns = {}
-    for s_ in fl.setters + fl.mixed:
-        for caller, call in cg.callers(s_):
-            if caller.module.short != "_storage":
-                fns[caller.qualname] = caller
-    need(fns, "no function sets the '?' label")
     n_loops = 0
-    for f in fns.values():
+    for f in [x for x in m.all_functions(include_typeguard=False) if x.module.short == "_pytree_type"]:
+        flat_names = set()
+        for a in walk_scope(f.node):
+            if isinstance(a, ast.Assign) and isinstance(a.value, ast.Call) and "tree_flatten" in norm(a.value.func):
+                t0 = a.targets[0]
+                if isinstance(t0, ast.Tuple) and t0.elts and isinstance(t0.elts[0], ast.Name):
+                    flat_names.add(t0.elts[0].id)
+        if not flat_names:
+            continue
         ctx.saw(f)
         g = NoReturn(m).cfg(f)
         for hdr in [n for n in g.live_nodes() if n.kind == "for"]:
             st = hdr.ast
             it = st.iter
             if not (isinstance(it, ast.Call) and isinstance(it.func, ast.Name) and it.func.id == "enumerate" and isinstance(st.target, ast.Tuple)
-                    and len(st.target.elts) == 2 and isinstance(st.target.elts[1], ast.Name)):
+                    and len(st.target.elts) == 2 and isinstance(st.target.elts[1], ast.Name) and it.args and isinstance(it.args[0], ast.Name) and it.args[0].id in flat_names):
                 continue
             leafvar = st.target.elts[1].id
             n_loops += 1
